@@ -177,7 +177,7 @@ def run(repo: Repo, rep: Report, tier: str) -> None:
     if len(whiles) == 1:
         c = next(c for c in ast.walk(whiles[0].ast.test) if isinstance(c, ast.Call) and call_name(c) == "precedence")
         a0, a1 = (norm(a) for a in c.args[:2])
-        okw = a0.endswith("[-1]") and "stack" in a0 and a1 == "current_token"
+        okw = a0.endswith("[-1]") and "stack" in a0 and a1 == current_token_expr(ev)
         detail = f"pop while precedence({a0}, {a1})"
         # the test must be a conjunction containing the call positively
         t = whiles[0].ast.test
@@ -268,6 +268,15 @@ def operand_conversion_rule(repo: Repo, rep: Report, rid: str) -> None:
               "shared Expression in that window works on unmarked tokens ('-2 * 3' raises 'not enough operands')", init.loc())
 
 
+def current_token_expr(ev) -> str:
+    """How Expression.evaluate refers to the token under the cursor (a local name, or the subscript itself after a local was inlined): the argument
+    of the is_number() test that opens the per-token dispatch."""
+    for c in walk_body(ev.node.body):
+        if isinstance(c, ast.Call) and call_name(c) == "is_number" and len(c.args) == 1:
+            return norm(c.args[0])
+    raise AnalysisError("Expression.evaluate: the is_number(<token>) test of the token dispatch was not found")
+
+
 def lookup_order_rule(repo: Repo, rep: Report, R6: str) -> None:
     """Identifiers resolve first in the supplied field context, then in the constants (shared by C10.R6 and C07.R8)."""
     rep.rule(R6, "operand lookup order: literal, then the supplied context, then the constants")
@@ -307,7 +316,8 @@ def lookup_order_rule(repo: Repo, rep: Report, R6: str) -> None:
     rep.check(0 <= i_num < i_ctx < i_const, R6, f"{ev.key}:operand-chain", f"literal (#{i_num}) -> context (#{i_ctx}) -> consts (#{i_const})",
               f"operand lookup order is literal #{i_num}, context #{i_ctx}, consts #{i_const}: the field context must be consulted before the constants",
               ev.loc(first_if))
-    for i, src in ((i_ctx, "context[current_token]"), (i_const, "self.cstruct.consts[current_token]")):
+    tok = current_token_expr(ev)
+    for i, src in ((i_ctx, f"context[{tok}]"), (i_const, f"self.cstruct.consts[{tok}]")):
         if i >= 0:
             body = chain_nodes[i].body
             pushed = [norm(c.args[0]) for s in body for c in ast.walk(s) if isinstance(c, ast.Call) and call_name(c) == "append" and c.args]
